@@ -283,7 +283,7 @@ def wrapHandler (fn : String) : Option Handler :=
                                 pure (wfhitOpt (castShapesNonlinearSwapped (fun (_ _ : Unit) => canon) () ()))) a
       oracle := fun a o => match run (do let s1 ← wpclosed; let m1 ← wpmotion; let ps ← wpcompound; let m2 ← wpmotion
                                          let t0 ← pf; let t1 ← pf; let st ← pbool; pure (s1, m1, ps, m2, t0, t1, st)) a with
-        | some (s1, m1, ps, m2, t0, t1, _) => woutS wphit o fun out =>
+        | some (s1, m1, ps, m2, t0, t1, stop) => woutS wphit o fun out =>
             if !(out.all finiteHit) then "fail non-finite-output" else
             let zero (v : V3 Float) : Bool := v.x == 0.0 && v.y == 0.0 && v.z == 0.0
             if !(zero m1.angvel && zero m2.angvel) then "skip rotating-motion (correspondence only)" else
@@ -306,7 +306,13 @@ def wrapHandler (fn : String) : Option Handler :=
                 match partSeps (qshape s1) (qparts ps) (poseAt (q t0 + t)) with
                 | some l => listMinR (l.map (·.1)) < -(1 + sc) / 100
                 | none => false
-              if bad.isEmpty then "pass" else s!"fail none-but-overlapping-at-t={(q t0 + bad.headD 0).toF}"
+              -- overlapping at the start and `stop_at_penetration = false`: the pair is ignored while it separates
+              let startsOverlapping := match partSeps (qshape s1) (qparts ps) (poseAt (q t0)) with
+                | some l => listMinR (l.map (·.1)) < (1 + sc) / 100
+                | none => true
+              if bad.isEmpty then "pass"
+              else if !stop && startsOverlapping then "pass"
+              else s!"fail none-but-overlapping-at-t={(q t0 + bad.headD 0).toF}"
         | none => "skip bad-args" }
   /- the remaining pairwise mirrored wrappers: triangle|segment cuboid pos12 [margin] pinv canon -/
   | "w_it_tc" | "w_it_sgc" => some {
